@@ -112,3 +112,31 @@ Proof.
   - intros q _. rewrite (rss_const 5 data); [apply rss_nonneg |].
     intros xy [<- | [<- | [<- | []]]]; reflexivity.
 Qed.
+
+(* exponential ansatz f(x) = a + b exp(p(x)) (exp_fitting; with a fixed: exp_fitting_with_const): a fit that reproduces constant
+   data exactly at order + 1 distinct abscissae is the constant everywhere - in particular at the point 0 the extrapolation reads.
+   scipy's curve_fit is a local optimiser, so exactness of the fit is the hypothesis (checked on the real fits by corr_C12_fit.py) *)
+Theorem constant_data_exact_exp_fit a b p E order data ds :
+  (forall xy, In xy data -> snd xy = E) ->
+  NoDup ds -> length ds = S order -> incl ds (map fst data) ->
+  (length p <= S order)%nat ->
+  (forall xy, In xy data -> a + b * exp (peval p (fst xy)) = snd xy) ->
+  forall x, a + b * exp (peval p x) = E.
+Proof.
+  intros Hconst Hnd Hlen Hincl Hp Hfit x.
+  assert (Hds : forall r, In r ds -> a + b * exp (peval p r) = E).
+  { intros r Hr. apply Hincl in Hr. apply in_map_iff in Hr. destruct Hr as [xy [<- Hin]].
+    rewrite (Hfit xy Hin). now apply Hconst. }
+  destruct ds as [|r0 rs]; [discriminate|].
+  pose proof (Hds r0 (or_introl eq_refl)) as H0.
+  destruct (Req_dec b 0) as [Hb | Hb].
+  - rewrite Hb in *. lra.
+  - assert (Hall : forall y, peval p y = peval p r0).
+    { intros y. enough (peval (psub0 p (peval p r0)) y = 0) by (rewrite psub0_eval in *; lra).
+      apply (many_roots_zero (S order) (psub0 p (peval p r0)) (r0 :: rs)); [now apply psub0_length | exact Hnd | exact Hlen |].
+      intros r Hr. rewrite psub0_eval. pose proof (Hds r Hr) as H1.
+      assert (He : exp (peval p r) = exp (peval p r0)).
+      { apply Rmult_eq_reg_l with b; [lra | exact Hb]. }
+      apply exp_inv in He. lra. }
+    rewrite (Hall x). exact H0.
+Qed.
